@@ -298,3 +298,22 @@ V("c12-kplus-rounds", "C12", "fire", GE, "        targets = list(range(p))\n    
 V("c12-silent-endpoint", "C12", "silent", GE, "sizes = rng.integers(size[0], size[1] + 1, K)", "sizes = rng.integers(size[0], size[1], K, endpoint=True)", what="endpoint=True")
 V("c12-silent-guard-flip", "C12", "silent", GE, "    if max_size > p:\n", "    if p < max_size:\n", what="flipped comparison")
 V("c12-silent-guard-merge", "C12", "silent", GE, "    if not replace:\n        if max_size * K > p:\n", "    if not replace and not (max_size * K <= p):\n        if True:\n", what="merged guard with negated <=")
+
+# ------------------------------------------------------------------------------- C17
+V("c17-f3a-revert", "C17", "fire", UT, "    if abs(np.sum(ratios) - 1) > 1e-9:", "    if np.sum(ratios) != 1:", rule="TOL", what="revert fix F3a")
+V("c17-f3b-revert", "C17", "fire", UT, "            if i < n_folds - 1:\n                fold_size = round(n * ratio)\n                fold_sample = sample[start:start + fold_size]\n                start += fold_size\n            else:\n                fold_sample = sample[start::]\n            folds[i].append(fold_sample)\n",
+  "            if i < n_folds:\n                fold_size = round(n * ratio)\n                fold_sample = sample[start:start + fold_size]\n            else:\n                fold_sample = sample[start::]\n            folds[i].append(fold_sample)\n            start += fold_size\n", rule="LAST", what="revert fix F3b")
+V("c17-tol-loose", "C17", "fire", UT, "    if abs(np.sum(ratios) - 1) > 1e-9:", "    if not np.isclose(np.sum(ratios), 1):", rule="TOL", what="default isclose tolerance 1e-5 accepts sums off by 1e-6")
+V("c17-tol-onesided", "C17", "fire", UT, "    if abs(np.sum(ratios) - 1) > 1e-9:", "    if np.sum(ratios) - 1 > 1e-9:", rule="TOL", what="only sums above 1 rejected", accept_inconclusive=True)
+V("c17-last-second", "C17", "fire", UT, "            if i < n_folds - 1:\n", "            if i < n_folds - 2:\n", rule="LAST", what="remainder taken by the last two folds")
+V("c17-no-advance", "C17", "fire", UT, "                fold_sample = sample[start:start + fold_size]\n                start += fold_size\n", "                fold_sample = sample[start:start + fold_size]\n", rule="CONTIG", what="cursor not advanced: folds overlap")
+V("c17-advance-n", "C17", "fire", UT, "                start += fold_size\n", "                start += fold_size + 1\n", rule="CONTIG", what="one observation skipped between folds")
+V("c17-start-outside", "C17", "fire", UT, "        rng.shuffle(sample)\n        start = 0\n        for i, ratio", "        rng.shuffle(sample)\n        for i, ratio", more=[(UT, "    rng = np.random.default_rng(random_state)\n    for sample in data:\n", "    rng = np.random.default_rng(random_state)\n    start = 0\n    for sample in data:\n")],
+  rule="CONTIG", what="cursor not reset per environment")
+V("c17-floor", "C17", "fire", UT, "                fold_size = round(n * ratio)\n", "                fold_size = int(n * ratio)\n", rule="SIZE", what="floor instead of round")
+V("c17-wrong-fold", "C17", "fire", UT, "            folds[i].append(fold_sample)\n", "            folds[0].append(fold_sample)\n", rule="FLOW.destination", what="everything lands in fold 0")
+V("c17-unshuffled", "C17", "fire", UT, "        sample = sample.copy()\n        rng.shuffle(sample)\n", "        sample = sample.copy()\n", rule="FLOW.source", what="no shuffle")
+V("c17-slices-from-first-env", "C17", "fire", UT, "                fold_sample = sample[start:start + fold_size]\n", "                fold_sample = data[0][start:start + fold_size]\n", rule=None, what="rows of another environment", )
+V("c17-silent-isclose", "C17", "silent", UT, "    if abs(np.sum(ratios) - 1) > 1e-9:", "    if not np.isclose(np.sum(ratios), 1, rtol=0, atol=1e-9):", what="isclose with explicit tolerance")
+V("c17-silent-eq-last", "C17", "silent", UT, "            if i < n_folds - 1:\n", "            if i != n_folds - 1:\n", what="equivalent last-fold test")
+V("c17-silent-plus1", "C17", "silent", UT, "            if i < n_folds - 1:\n", "            if i + 1 < len(ratios):\n", what="i + 1 < n")
